@@ -50,6 +50,72 @@ Proof.
   - exact H.
 Qed.
 
+(* how the receive nonce advances: a poll_read call decrypts at most one frame, and the counter
+   moves (by exactly one) only in a call that delivers bytes of that frame *)
+Definition ctr_step (r : reader) (x : rres) (r' : reader) : Prop :=
+  r_ctr r' = r_ctr r \/ (r_ctr r' = r_ctr r + 1 /\ exists n pos, x = RReady n pos).
+
+Lemma proc_ctr_step e b r r2 x : proc e b r = (r2, x) -> ctr_step r x r2.
+Proof.
+  unfold proc, ctr_step.
+  destruct (r_state r) as [mr| | |poff psize pfs|]; try (intros [= <- <-]; left; reflexivity).
+  - destruct (r_cfs r) as [fs|]; [|intros [= <- <-]; left; reflexivity].
+    destruct (fs <? TAG); [intros [= <- <-]; left; reflexivity|].
+    destruct (rbuf_len (e_cfg e) <? r_offset r + fs); [intros [= <- <-]; left; reflexivity|].
+    destruct (r_nread r <? r_offset r + fs); [intros [= <- <-]; left; reflexivity|].
+    destruct (SNOW_MAX <? fs); [intros [= <- <-]; left; reflexivity|].
+    destruct (body_ok (e_items e) (r_ctr r) (r_wbase r + r_offset r) fs).
+    + destruct (fs - TAG <=? b); [intros [= <- <-]; right; cbn [r_ctr]; eauto|].
+      destruct (c_mfl (e_cfg e) <? fs - TAG); intros [= <- <-]; [left; reflexivity | right; cbn [r_ctr]; eauto].
+    + destruct (fs - TAG <=? b); [intros [= <- <-]; left; reflexivity|].
+      destruct (c_mfl (e_cfg e) <? fs - TAG); intros [= <- <-]; left; reflexivity.
+  - destruct (psize <? poff); [intros [= <- <-]; left; reflexivity|].
+    destruct (psize - poff <=? b); intros [= <- <-]; left; reflexivity.
+Qed.
+
+Lemma poll_go_ctr_step e b : forall sc r x r' sc', poll_go e b sc r = (x, r', sc') -> ctr_step r x r'.
+Proof.
+  assert (Htr : forall (r r1 r' : reader) x, r_ctr r1 = r_ctr r -> ctr_step r1 x r' -> ctr_step r x r').
+  { intros r r1 r' x H [A|[A B]]; [left|right; split; [|exact B]]; congruence. }
+  induction sc as [|s t IH]; intros r x r' sc'; cbn [poll_go];
+    destruct (match r_state r with ReadFrameLen => step_len e r | _ => (r, None) end) as [r1 res] eqn:Epre;
+    (assert (Hc : r_ctr r1 = r_ctr r)
+      by (destruct (r_state r); try (injection Epre as <- <-; reflexivity);
+          eapply step_len_ctr; eassumption));
+    (destruct res as [y|]; [intros [= <- <- <-]; left; exact Hc|]).
+  - destruct (r_state r1) eqn:Es1.
+    + destruct ((max_read <? r_nread r1) || (rbuf_len (e_cfg e) <? max_read));
+        intros [= <- <- <-]; left; rewrite ?set_lp_ctr; exact Hc.
+    + intros [= <- <- <-]; left; exact Hc.
+    + destruct (proc e b r1) as [r2 y] eqn:Ep. intros [= <- <- <-].
+      eapply Htr; [exact Hc | eapply proc_ctr_step; exact Ep].
+    + destruct (proc e b r1) as [r2 y] eqn:Ep. intros [= <- <- <-].
+      eapply Htr; [exact Hc | eapply proc_ctr_step; exact Ep].
+    + intros [= <- <- <-]; left; exact Hc.
+  - destruct (r_state r1) eqn:Es1.
+    + destruct ((max_read <? r_nread r1) || (rbuf_len (e_cfg e) <? max_read));
+        [intros [= <- <- <-]; left; exact Hc|].
+      destruct (s =? 0); [intros [= <- <- <-]; left; rewrite set_lp_ctr; exact Hc|].
+      destruct (s =? SPECIAL); [intros [= <- <- <-]; left; rewrite set_lp_ctr; exact Hc|].
+      destruct (SPECIAL <? s); [intros [= <- <- <-]; left; rewrite set_lp_ctr; exact Hc|].
+      destruct (N.min s (N.min (max_read - r_nread r1) (e_avail e - (r_wbase r1 + r_nread r1))) =? 0);
+        [intros [= <- <- <-]; left; rewrite set_lp_ctr; exact Hc|].
+      intro H. eapply Htr; [|eapply IH; exact H]. cbn [r_ctr]. exact Hc.
+    + intros [= <- <- <-]; left; exact Hc.
+    + destruct (proc e b r1) as [r2 y] eqn:Ep. intros [= <- <- <-].
+      eapply Htr; [exact Hc | eapply proc_ctr_step; exact Ep].
+    + destruct (proc e b r1) as [r2 y] eqn:Ep. intros [= <- <- <-].
+      eapply Htr; [exact Hc | eapply proc_ctr_step; exact Ep].
+    + intros [= <- <- <-]; left; exact Hc.
+Qed.
+
+Theorem poll_ctr_step e b sc r x r' sc' : poll_read e b sc r = (x, r', sc') -> ctr_step r x r'.
+Proof.
+  unfold poll_read. intro H. pose proof (poll_go_ctr_step e b _ _ _ _ _ H) as [A|[A B]].
+  - left. rewrite A. apply set_lp_ctr.
+  - right. split; [rewrite A, set_lp_ctr; reflexivity | exact B].
+Qed.
+
 (* every item below the counter is the authentic frame of its index *)
 Lemma below_ctr e D r : wf_env e -> Inv2 e D r -> forall j, j < r_ctr r ->
   exists it p, nthI (e_items e) j = Some it /\ nthP (e_plains e) j = Some p /\
